@@ -777,7 +777,7 @@ pub fn own_mode() -> &'static str {
     static ON: OnceLock<bool> = OnceLock::new();
     if *ON.get_or_init(|| catch_unwind(|| { let x = std::hint::black_box(i64::MIN); std::hint::black_box(-x); }).is_err()) { "dbg" } else { "rel" }
 }
-// ---- script::read_uint with an arbitrary size (F19, fixed by fc1698d: an oversized size is Err(NumericOverflow))
+// ---- script::read_uint with an arbitrary size (F19, fixed by 6050d64: an oversized size is Err(NumericOverflow))
 fn eval_ruint(w: &[&str]) -> Out {
     if w.len() != 5 { return Out::ok("harnesserr args".into()); }
     if w[2] != own_mode() { return Out::ok("harnesserr profile: replay this case with the other harness binary".into()); }
@@ -816,7 +816,7 @@ fn eval_fees(w: &[&str]) -> Out {
         (per, allv)
     });
     let res = match &r { Some((per, all)) => format!("ok in={} all={}", if per.is_empty() { "-".into() } else { per.join(",") }, if all.is_empty() { "-".into() } else { all.join(",") }), None => "panic".into() };
-    // F17 (fixed by 8ea09fb): no known finding any more; the sums must be the exact sums capped at u64::MAX
+    // F17 (fixed by 7b7cbe8): no known finding any more; the sums must be the exact sums capped at u64::MAX
     let _ = overflow;
     let mut out = finish(res, &obs, None, Some(1 << 20));
     if out.pred_fail.is_none() {
@@ -994,7 +994,7 @@ fn eval_explore(kind: &str, w: &[&str]) -> Out {
             p.add_output(pset::Output::new_explicit(Script::new(), 5, asset(3), None));
             if reset { p.global.tx_data = Default::default(); }       // the counters (private) fall back to 0 while the vectors hold one element each
             let (_, obs) = guard(|| { let mut q = p.clone(); let _ = q.remove_input(0); let mut q = p.clone(); let _ = q.remove_output(0); let mut q = p.clone(); let _ = q.remove_input(7); let _ = q.remove_output(7); });
-            // F24 (fixed by ba8083f): no known finding any more; the count must be the number of remaining elements
+            // F24 (fixed by 22d9646): no known finding any more; the count must be the number of remaining elements
             let _ = reset;
             let mut out = finish("total".into(), &obs, None, Some(1 << 20));
             if out.pred_fail.is_none() {
@@ -1015,7 +1015,7 @@ fn eval_explore(kind: &str, w: &[&str]) -> Out {
                     let _ = serialize(&p);
                 }
             });
-            // F25 (fixed by a868a45): no known finding any more
+            // F25 (fixed by 5c23a02): no known finding any more
             finish("total".into(), &obs, None, Some(1 << 20))
         }
         "x-cbor-params" => {
@@ -1024,7 +1024,7 @@ fn eval_explore(kind: &str, w: &[&str]) -> Out {
             let Some(b) = unhex_dash(w[2]) else { return Out::ok("harnesserr hex".into()) };
             let huge = b.windows(9).any(|x| x[0] == 0x9b && u64::from_be_bytes(x[1..9].try_into().unwrap()) > (1 << 62));
             let (_, obs) = guard(|| { let _ = serde_cbor::from_slice::<elements::dynafed::Params>(&b); let _ = serde_cbor::from_slice::<BlockHeader>(&b); });
-            // F26 (fixed by d4a049b): no known finding any more; the allocation predicate applies
+            // F26 (fixed by b1b3ac3): no known finding any more; the allocation predicate applies
             let _ = huge;
             finish("total".into(), &obs, None, Some(small_bound(b.len()) + (1 << 20)))
         }
